@@ -132,7 +132,7 @@ def run(ctx, replay=None):
                                                nm.id(peer), trusted_addr(peer, cs["trusted"]), hops, cert(rq["tls"]), cert(rq["hdr"])]])
             meta.append((cs, rq, nm, got))
     # realip in isolation: oracle = rightmost untrusted hop behind trusted peers, else the peer; headers ignored for untrusted peers
-    nets = ["10.0.0.0/8", "192.168.7.7", "fd00::/8"]
+    nets = ["10.0.0.0/8", "192.168.7.7", "fd00::/8", "2001:db8::1"]
     for ic in ipcases:
         n_eval += 1
         peer = strip_port(ic["peer"])
